@@ -1,4 +1,5 @@
 import Mkdb.Proofs.LRU
+import Mkdb.Proofs.FlushOrderLRU
 /-!
 # C15 — the page cache is a correct LRU that never drops unsaved pages
 
@@ -196,5 +197,51 @@ example : find? ([⟨1, 10, true⟩, ⟨2, 20, false⟩] : List Entry) 3 = none 
 example : (Cache.set { cap := 2, items := [⟨1, 10, true⟩, ⟨2, 20, true⟩] } 3 30 false).2 = false := by decide
 example : Inv { cap := 2, items := [⟨1, 10, true⟩, ⟨2, 20, false⟩] } := by
   refine ⟨by decide, by decide⟩
+
+/-! ### a flush changes the recency order
+
+`fileStore.flushPagesLocked` (storage/page.go) calls `update` for every dirty page in the order of a Go
+map iteration; `update` ends in `LRUCache.set` of the page under its own key (`MoveToFront`), then the
+page is marked clean.  `touchAll c order` (Proofs/FlushOrderLRU) is that loop with the iteration order as
+a parameter.  It is not a new kind of step: every turn is the identity or a `set` of the model. -/
+
+/-- **C15.flush_reordering_is_a_run_of_sets**: the recency change of a flush, in whatever order the map
+iteration takes, is a run of `set k id false` operations of the model (one per dirty resident page met);
+so a history with flushes in between is a history without, and every state reachable with flushes is
+reachable without them: `C15_bounded`, `C15_dirty_pinned`, `C15_refuse_iff`, `C15_evicts_lru_clean` (which
+hold in every state, or every reachable state) cover them - the next eviction after a flush still takes
+the least recently used clean entry of the reordered list. -/
+theorem C15_flush_reordering_is_a_run_of_sets (c : Cache) (ops : List Op) (order : List Nat) :
+    ∃ ops', touchAll (run c ops) order = run c (ops ++ ops') ∧ ∀ op ∈ ops', ∃ k id, op = .set k id false := by
+  obtain ⟨ops', h1, h2⟩ := touchAll_is_run (run c ops) order
+  exact ⟨ops', by rw [h1, run_append], h2⟩
+
+/-- **C15.bounded_after_flush**: after any operations from the empty cache and the recency change of a
+flush in any order, the cache holds at most `cap` entries and one entry per key, and its capacity is
+unchanged. -/
+theorem C15_bounded_after_flush (cap : Nat) (ops : List Op) (order : List Nat) :
+    (touchAll (run (Cache.empty cap) ops) order).items.length ≤ cap ∧
+    (keys (touchAll (run (Cache.empty cap) ops) order).items).Nodup ∧
+    (touchAll (run (Cache.empty cap) ops) order).cap = cap := by
+  obtain ⟨ops', h1, _⟩ := C15_flush_reordering_is_a_run_of_sets (Cache.empty cap) ops order
+  rw [h1]
+  exact ⟨(C15_bounded cap (ops ++ ops')).1, (C15_bounded cap (ops ++ ops')).2, run_cap _ _⟩
+
+/-- **C15.lookup_across_flush**: the recency change of a flush keeps, under every key, the page that was
+filed there (resident stays resident with the same page, absent stays absent), and keeps the invariant
+of `C15_lookup` / `C15_dirty_pinned`. -/
+theorem C15_lookup_across_flush (c : Cache) (order : List Nat) (k : Nat) :
+    (find? (touchAll c order).items k).map (·.id) = (find? c.items k).map (·.id) ∧
+    (Inv c → Inv (touchAll c order)) :=
+  ⟨find?_touchAll c order k, fun h => touchAll_inv c h order⟩
+
+/-- **C15.flush_order_changes_the_victim** (the model evaluated): capacity 2, pages 1 and 2 dirty.  After
+the flush meeting 1 then 2 the list is 2, 1 and the victim of the next insertion is page 1; meeting 2 then
+1 it is 1, 2 and the victim is page 2.  Both are clean lists of the same two pages. -/
+theorem C15_flush_order_changes_the_victim :
+    (touchAll ⟨2, [⟨1, 10, true⟩, ⟨2, 20, true⟩]⟩ [1, 2]).items = [⟨2, 20, false⟩, ⟨1, 10, false⟩] ∧
+    (touchAll ⟨2, [⟨1, 10, true⟩, ⟨2, 20, true⟩]⟩ [2, 1]).items = [⟨1, 10, false⟩, ⟨2, 20, false⟩] ∧
+    victim (touchAll ⟨2, [⟨1, 10, true⟩, ⟨2, 20, true⟩]⟩ [1, 2]).items = some ⟨1, 10, false⟩ ∧
+    victim (touchAll ⟨2, [⟨1, 10, true⟩, ⟨2, 20, true⟩]⟩ [2, 1]).items = some ⟨2, 20, false⟩ := by decide
 
 end Mkdb.LRU
